@@ -587,6 +587,9 @@ class Evaluator:
 
     def ev_Field(self, e, st):
         for s, v in self.ev(e["e"], st):
+            if self.ints and v[0] == "tuple" and str(e["name"]).isdigit() and int(e["name"]) < len(v[1]):
+                yield s, v[1][int(e["name"])]
+                continue
             yield s, ("field", e["name"], v)
 
     def ev_Index(self, e, st):
@@ -751,9 +754,15 @@ class Evaluator:
                 continue
             self.calls_seen.append(callee)
             if self.call_hook:
+                self.recv_local = None
                 r = self.call_hook(callee, args, s)
                 if r is not None:
-                    if isinstance(r, list):
+                    if isinstance(r, dict):
+                        # {"env": {local: value}, "val": value}: the call updates locals (a `&mut` receiver / argument) on this path
+                        s2 = s.fork()
+                        s2.env.update(r.get("env", {}))
+                        yield s2, r["val"]
+                    elif isinstance(r, list):
                         for cond, val in r:
                             yield s.fork(cond), val
                     else:
@@ -799,9 +808,17 @@ class Evaluator:
                         continue
                 self.calls_seen.append(callee)
                 if self.call_hook:
+                    rl = e["recv"]
+                    while rl.get("k") == "AddrOf" or (rl.get("k") == "Unary" and rl.get("op") == "*"):
+                        rl = rl.get("e") or rl.get("a")
+                    self.recv_local = rl.get("name") if rl.get("k") == "Path" and rl.get("res") == "local" else None
                     r = self.call_hook(callee, [recv] + args, s)
                     if r is not None:
-                        if isinstance(r, list):
+                        if isinstance(r, dict):
+                            s2 = s.fork()
+                            s2.env.update(r.get("env", {}))
+                            yield s2, r["val"]
+                        elif isinstance(r, list):
                             for cond, val in r:
                                 yield s.fork(cond), val
                         else:
